@@ -14,6 +14,7 @@ pub mod ext_g2;
 pub mod ext_g3;
 pub mod ext_g5;
 pub mod ext_g6;
+pub mod ext_g7;
 
 use crate::engine::Tape;
 use elements::confidential::{Asset, Nonce, Value};
